@@ -549,11 +549,19 @@ class Routing(Stream):
             o = out['routes'][route]
             failed = isinstance(o['outcome'], str) and o['outcome'].startswith('e:')
             if r.status == 'err':
-                if not failed or o['outcome'][2:] != r.words[0]:
+                if not failed:
+                    if case.get('malformed') or (case.get('second') == 2 and route == 'get_func'):
+                        # outside the quantifier (malformed options; a callable handed to mask_sift_second_layer): the
+                        # model refuses, the implementation accepts - not the property's business
+                        skipped = 'skip:input outside the quantifier: the model refuses it, the implementation returns a result'
+                        continue
                     return '%s: model raises %s, implementation %s' % (route, r.words, o['outcome'])
-                continue
+                continue          # both refuse: the property fixes no exception class
             if not r.ok:
                 return '%s: model answered %s' % (route, r.raw[:200])
+            if failed and case.get('malformed'):
+                skipped = 'skip:input outside the quantifier: the implementation refuses it (%s), the model does not' % o['outcome']
+                continue
             for st, key in zip(STAGES, ('gni', 'ie', 'gpe')):
                 model = set(_cfg.wire(x) for x in _cfg.unwire(r.args[key]))
                 impl = set(o['calls'][st])
@@ -583,9 +591,7 @@ class Routing(Stream):
         if case.get('second') == 2:
             # no callable can be handed to mask_sift_second_layer (the model's Route.getFunc -> TypeError convention; the
             # property does not say what that function accepts): mechanism level, and not a delivery route
-            oc = out['routes']['get_func']['outcome']
-            if not _is_err(oc):
-                fs.append(Failure('mask-second-layer-accepts-sift-func', str(oc), literal=False))
+            # (whether it is rejected - today a TypeError - is not judged: tag mask-second-layer:sift_func-accepted)
             routes = [r_ for r_ in routes if r_ != 'get_func']
         if case.get('malformed'):
             # "never silently dropped": an option name no stage knows must not be swallowed (literal); a name bound twice
@@ -642,6 +648,8 @@ class Routing(Stream):
         if not isinstance(out, ImplError):
             if out.get('reproducible') is False:
                 t.append('seeded-call-not-reproducible:routes-not-compared')
+            if case.get('second') == 2 and not _is_err(out['routes'].get('get_func', {}).get('outcome', 'e:')):
+                t.append('mask-second-layer:sift_func-accepted')
             if 'classic' in out:
                 t.append('unreachable-stop-rule:classic-sift-' + ('raises' if _is_err(out['classic']) else 'returns'))
             for route in (out.get('extra_routes') or {}):
